@@ -301,6 +301,13 @@ def check(prop, tier, seed):
 # ---------------------------------------------------------------------------------------------
 # Miri thread layer (C15, thorough tier)
 
+def miri_found_something(output):
+    """Did the interpreted program itself fail (assertion, panic, UB, data race, deadlock) — as
+    opposed to cargo/miri failing to build or start?"""
+    marks = ("panicked at", "Undefined Behavior", "data race", "deadlock", "MIRI-HIST-VIOLATION", "the evaluated program")
+    return any(m in output for m in marks)
+
+
 def run_miri(seed, tier="thorough"):
     d = os.path.join(ROOT, "miri-threads")
     if not os.path.isdir(d):
@@ -316,6 +323,10 @@ def run_miri(seed, tier="thorough"):
         cmd = ["cargo", "+nightly", "miri", "run", "--offline", "--quiet", "--bin", "threads", "--", str(seed), str(script)]
         p = subprocess.run(cmd, cwd=d, env=env, stdout=subprocess.PIPE, stderr=subprocess.PIPE, text=True)
         total += n_seeds
+        if p.returncode != 0 and not miri_found_something(p.stdout + p.stderr):
+            # the tool itself failed (toolchain, sysroot, compile error): a harness error, never a verdict
+            log(f"HARNESS-ERROR miri thread layer could not run (script {script}):\n" + (p.stdout + p.stderr)[-1500:])
+            return None
         if p.returncode != 0:
             os.makedirs(REPLAYS, exist_ok=True)
             path = os.path.join(REPLAYS, f"C15-threads-miri-s{seed}-script{script}.json")
@@ -336,6 +347,9 @@ def run_miri(seed, tier="thorough"):
     for config in ((0, 1) if tier == "thorough" else ()):
         cmd = ["cargo", "+nightly", "miri", "run", "--offline", "--quiet", "--bin", "hist", "--", str(seed), str(hist_runs), str(config)]
         p = subprocess.run(cmd, cwd=d, env=env2, stdout=subprocess.PIPE, stderr=subprocess.PIPE, text=True)
+        if p.returncode != 0 and not miri_found_something(p.stdout + p.stderr):
+            log(f"HARNESS-ERROR miri history layer could not run (config {config}):\n" + (p.stdout + p.stderr)[-1500:])
+            return None
         if p.returncode != 0:
             os.makedirs(REPLAYS, exist_ok=True)
             path = os.path.join(REPLAYS, f"C15-hist-miri-s{seed}-c{config}.json")
@@ -371,7 +385,18 @@ def replay(path):
         return 2
     rc = 0
     for bn in builds:
-        p = subprocess.run([os.path.join(SIM, BUILDS[bn][2]), "replay", path], cwd=ROOT, env=ENV, stdout=subprocess.PIPE, stderr=subprocess.PIPE, text=True)
+        try:
+            p = subprocess.run([os.path.join(SIM, BUILDS[bn][2]), "replay", path], cwd=ROOT, env=ENV, stdout=subprocess.PIPE, stderr=subprocess.PIPE, text=True, timeout=180)
+        except subprocess.TimeoutExpired:
+            log(f"[build {bn}]\n  REPRODUCED the replay did not finish within 180 s (hang)")
+            log(f"VIOLATION property={j.get('property')} replay={path}")
+            rc = max(rc, 1)
+            continue
+        if p.returncode not in (0, 1, 2):
+            log(f"[build {bn}]\n  REPRODUCED the replay process died with status {p.returncode} (crash)\n{p.stderr[-600:]}")
+            log(f"VIOLATION property={j.get('property')} replay={path}")
+            rc = max(rc, 1)
+            continue
         log(f"[build {bn}]")
         for l in p.stdout.splitlines():
             log("  " + l if not l.startswith("VIOLATION") else l)
